@@ -9,7 +9,8 @@ RULE = ("provider part: random histories (10-45 actions) over 3-6 validators and
         "parameters): slash packets through AppModule.OnRecvPacket for current, replaced, unknown, provider and other-consumer keys, "
         "downtime/double-sign/invalid infractions, known/unknown vsc ids, malformed data, unknown channels; external validator "
         "changes (jail, unjail, tombstone, power, removal, unbonded), key assignments, opt-in/out, phase and parameter changes; "
-        "blocks with epochs (VSC packets captured). consumer part: random histories over the real consumer keeper (queue reports, "
+        "blocks with epochs (VSC packets captured); plus directed/random same-block histories: 2-3 launched consumers report the same "
+        "validator within one provider block, or a validator jailed externally earlier in the block, with assigned keys. consumer part: random histories over the real consumer keeper (queue reports, "
         "EndBlock sends with injected send errors, scripted acknowledgements, VSC packets with slash acks and validator changes, "
         "retry-delay boundary times). non-trivial = a validator was jailed by a packet or slash acks travelled in a VSC packet "
         "(provider) / an outstanding flag was set and cleared (consumer); distinct = distinct sequences of result classes")
@@ -117,8 +118,56 @@ def gen_provider_case(rng, flood=False):
     return {"pows": pows, "frac": rng.choice(FRACS), "period_ns": period, "cons": cons, "acts": acts}
 
 
+def gen_same_block_case(rng, directed=None):
+    """Several launched consumers hold validator V in their stored sets and report V within ONE provider block (no staking
+    end-block in between), or V was jailed externally earlier in the same block; with and without assigned consumer keys.
+    The replenish fraction is large so that the meter stays non-negative after the first jailing."""
+    n = rng.randint(3, 5)
+    pows = [rng.randint(1, 9) for _ in range(n)]
+    ncons = rng.choice([2, 3, 3])
+    cons, cur = [], []
+    for c in range(ncons):
+        keys = {v: 10 * (c + 1) + v for v in range(n) if rng.random() < 0.5}
+        cons.append({"direct": 0, "dfrac": rng.choice(["0.01", "0", "0.5"]), "djail_ns": rng.choice([600 * 10 ** 9, 10 ** 9]),
+                     "optin": list(range(n)), "keys": [[v, k] for v, k in sorted(keys.items())]})
+        cur.append({v: keys.get(v, 1000 + v) for v in range(n)})
+    period = rng.choice(PERIODS)
+    acts = []
+
+    def report(c, v, provider_key=False):
+        acts.append([1, c, 1000 + v if provider_key else cur[c][v], 2, 0, rng.randint(1, 9), 0])
+
+    rounds = directed or [rng.choice(["multi", "multi", "extjail", "mixed"]) for _ in range(rng.randint(2, 5))]
+    for kind in rounds:
+        v = rng.randrange(n)
+        order = list(range(ncons))
+        rng.shuffle(order)
+        if kind == "multi":                      # (a)/(c): every consumer reports V in the same block
+            for c in order:
+                report(c, v, provider_key=rng.random() < 0.2)
+            if rng.random() < 0.5:
+                report(order[0], v)              # and the first consumer once more
+        elif kind == "extjail":                  # (b): jailed by other means earlier in the block
+            acts.append([3, v, 1, 1])
+            for c in order[:rng.randint(1, ncons)]:
+                report(c, v)
+        else:
+            report(order[0], v)
+            report(order[-1], rng.randrange(n))
+            acts.append([3, rng.randrange(n), 1, 1])
+            report(order[-1], v)
+        acts.append([2, rng.choice([10 ** 9, period, period - 1, period + 1])])
+        if rng.random() < 0.6:                   # unjail so that the validator is bonded with power again
+            acts.append([3, v, 1, 0])
+            acts.append([2, 10 ** 9])
+    return {"pows": pows, "frac": rng.choice(["1.0", "1.0", "0.5", "0.33"]), "period_ns": period, "cons": cons, "acts": acts}
+
+
 def gen_provider(rng, tier):
-    total = 420 if tier == "quick" else 8000
+    total = 360 if tier == "quick" else 8000
+    yield gen_same_block_case(rng, directed=["multi", "extjail", "multi"])
+    for _ in range(60 if tier == "quick" else 1500):
+        yield gen_same_block_case(rng)
     for _ in range(total):
         yield gen_provider_case(rng)
 
